@@ -179,6 +179,24 @@ class LSE:
 
     def stmt(self, s, p):
         k = s["kind"]
+        from ..vals import is_assert_stmt, any_assert_condition
+        if is_assert_stmt(s):
+            # an assertion: execution continues only where it holds (the other arm aborts) - one path, the condition a fact
+            c = any_assert_condition(s)
+            if c is None:
+                return [p]
+            q = Path(p.state, p.env, p.facts)
+            q.events = list(p.events)
+            alts = self.cond(c, q, True)
+            if alts is None:
+                return [p]
+            out = []
+            for f in alts:
+                if f.feasible():
+                    r = Path(q.state, q.env, f)
+                    r.events = list(q.events)
+                    out.append(r)
+            return out or [p]
         if k in ("DeclStmt", "BinaryOperator", "ReturnStmt", "CStyleCastExpr", "ParenExpr"):
             t = self._find_ternary(s)
             if t is not None and not any(x["kind"] == "CallExpr" and any(z is t for z in walk(x)) for x in walk(s)):
